@@ -75,6 +75,8 @@ func exploreSched(R *vlib.Out, sc *schedScenario) {
 			sig, detail = "panic-in-task:"+r.PanicTask, r.Panic
 		case r.Capped:
 			sig, detail = "livelock-or-step-cap", fmt.Sprintf("%d steps", r.Steps)
+		case r.MainBlocked:
+			sig, detail = "call-never-returned", "the scenario's main task is blocked for good in "+r.MainOp+leakedStr(r.Leaked)
 		default:
 			sig, detail = sc.Check(r)
 		}
@@ -174,6 +176,8 @@ func replaySched(R *vlib.Out, scenarios func(name string, params map[string]any)
 		sig, detail = "panic-in-task:"+r.PanicTask, r.Panic
 	case r.Capped:
 		sig, detail = "livelock-or-step-cap", fmt.Sprintf("%d steps", r.Steps)
+	case r.MainBlocked:
+		sig, detail = "call-never-returned", "the scenario's main task is blocked for good in "+r.MainOp+leakedStr(r.Leaked)
 	default:
 		sig, detail = sc.Check(&r)
 	}
